@@ -608,3 +608,73 @@ def _param_reaches_encoder(u, h, i, depth=0):
                 if cn in u.functions and _param_reaches_encoder(u, u.functions[cn], j, depth + 1):
                     return True
     return False
+
+
+# ---- PFX1: prefix tests between pointer texts end on a token boundary ------------------------------------------------
+
+def pfx1(units, R):
+    """A JSON pointer P designates something inside the location C only if P starts with C *and continues with '/'*
+    ("/ab" is not inside "/a").  Every strncmp/memcmp of two strings over the length of one of them that can lead to a
+    non-zero result of its function must therefore be accompanied by a test of the next byte against '/'."""
+    from .common import guarded_by, cmp_parts
+    u = units['cJSON_Utils.c']
+    n = 0
+    for fn in u.function_list:
+        single = {}
+        for d in fn.locals():
+            if 'init' in d:
+                single[d['d']] = [d['init']]
+        for a in assignments(fn):
+            if is_ref(a['l']):
+                single.setdefault(strip_casts(a['l'])['d'], []).append(a['r'])
+
+        def strlen_of(e):
+            """expr_str of X when e is strlen(X) (possibly through a local assigned once)"""
+            e = strip_casts(e)
+            if e.get('k') == 'ref' and len(single.get(e.get('d'), [])) == 1:
+                e = strip_casts(single[e['d']][0])
+            if e.get('k') == 'call' and callee_name(e) == 'strlen' and e['args']:
+                return expr_str(strip_casts(e['args'][0]))
+            return None
+        for c in fn.calls():
+            if callee_name(c) not in ('strncmp', 'memcmp') or len(c['args']) != 3:
+                continue
+            a0, a1 = expr_str(strip_casts(c['args'][0])), expr_str(strip_casts(c['args'][1]))
+            sl = strlen_of(c['args'][2])
+            if sl is None or sl not in (a0, a1) or a0 == a1:
+                continue
+            if strip_casts(c['args'][0]).get('k') == 'str' or strip_casts(c['args'][1]).get('k') == 'str':
+                continue          # comparison with a literal keyword, not between two pointers
+            longer = a1 if sl == a0 else a0
+            nexpr = expr_str(strip_casts(c['args'][2]))
+            n += 1
+            cfg = fn.cfg()
+
+            def boundary(nn, l):
+                """edge on which longer[n] == '/' holds"""
+                if nn.kind != 'branch' or l is None:
+                    return False
+                p = cmp_parts(nn.expr)
+                if p is None or p[2] != ord('/') or p[1] not in ('==', '!='):
+                    return False
+                x = strip_casts(p[0])
+                if x.get('k') != 'idx' or expr_str(strip_casts(x['b'])) != longer or expr_str(strip_casts(x['i'])) != nexpr:
+                    return False
+                return (p[1] == '==') == (l[0] == 'T')
+            bad = None
+            for r in cfg.returns():
+                if r.expr is None or const_val(r.expr) == 0:
+                    continue
+                e = strip_casts(r.expr)
+                p = cmp_parts(e)
+                direct = p is not None and p[2] == ord('/') and p[1] == '==' and strip_casts(p[0]).get('k') == 'idx' and \
+                    expr_str(strip_casts(strip_casts(p[0])['b'])) == longer and expr_str(strip_casts(strip_casts(p[0])['i'])) == nexpr
+                if direct or guarded_by(cfg, r.id, boundary):
+                    continue
+                bad = r
+                break
+            R.ob('PFX1', fn, c, 'prefix test of %s against %s also looks at the byte after the prefix' % (longer, sl), bad is None,
+                 'every non-zero result lies behind %s[%s] == \'/\'' % (longer, nexpr) if bad is None else
+                 'the result at line %d can be non-zero when %s merely starts with the same characters as %s ("/ab" vs "/a"): the byte '
+                 'after the prefix is not compared with \'/\'' % (bad.line, longer, sl), key='prefix:%s:%s' % (longer, sl))
+    R.note('PFX1: %d prefix comparison(s) between pointer texts' % n)
